@@ -27,6 +27,7 @@ THEOREMS = [
     "no_panic_expiry_test", "expiry_by_addition_refuted", "str_slice_prefix_refuted",
     "registry_save_load_roundtrip", "write_without_truncate_refuted",
     "amount_format_parse_roundtrip",
+    "sync_counters_bounded", "sync_wrapping_refuted",
     "no_panic_check_port_availability", "check_port_availability_refuses_iff", "port_availability_exclusive_refuted",
     "no_panic_try_deserialize_record", "try_deserialize_record_refuses_short", "payload_slice_first_refuted",
 ]
@@ -35,6 +36,9 @@ RULE = ("per text parser: non-ASCII inputs whose BYTE length is exactly L for L 
         "starting at byte offsets 0..4 and ending at the end; 0x/0X prefixes, blanks, quotes, signs around valid values; "
         "cache files with last_seen at 0, 1, 2^31, 2^32, 2^62, i64::MAX-{0,1,59..86401,10^9}, u64 values and nanos "
         "serde rejects, and within 1-3 s of now / the expiry boundary; "
+        "cache-file merge path (through the c18 store harness): file entries with counters 0, 1, 2, 2^15, 2^16, 2^31, u32::MAX-{0,1,2} "
+        "x the same address in memory with a later last_seen, flush + load, two rounds; non-cache files that are valid UTF-8 with a "
+        "multi-byte character across byte offsets 1..300, 1024, 4096; "
         "formatter -> parser over the whole value domain: amounts of every bit length 1..256 (2^k-1, 2^k, 2^k+1, random), "
         "2^k * 10^18 and neighbours, 10^k neighbours, MAX; canonical port texts for 2^k-1/2^k/2^k+1; "
         "PortRange consumers: check_port_availability / get_start_port_if_applicable for ranges with start 0, end 65535, "
@@ -52,6 +56,8 @@ RULE = ("per text parser: non-ASCII inputs whose BYTE length is exactly L for L 
         "truncations, byte flips, non-UTF-8; a case is distinct/non-trivial by (op, outcome, length class, "
         "generator family)")
 ASSUMPTIONS = [
+    "the harness binaries install a tracing subscriber at TRACE level that formats every event into a sink, as nodes and "
+    "clients always do: log-argument evaluation is part of what the parsers do in production",
     "third-party decoders are total oracles of the model and are only exercised under catch_unwind: blsttc "
     "PublicKey::from_bytes, ring PBKDF2 + ChaCha20-Poly1305 opening, Multiaddr::from_str, PeerId::from_str, "
     "serde_json / rmp-serde decoding of CacheData, NodeRegistry and RecordHeader; the `hex` crate is modelled in full",
@@ -579,6 +585,14 @@ def gen(ctx, valid_pks):
         c.pop("data")
         c["fam"] = "mutated"
         cases.append(c)
+    from props import C18 as _C18
+    offs = list(range(1, 301)) + [o + d for o in (1024, 4096) for d in (-2, -1, 0, 1, 2)]
+    if quick:
+        offs = [o for o in offs if o <= 80 or o % 4 == 0 or o > 1000]
+    for i, b in enumerate(_C18.straddle_texts(offs)):
+        if quick and i % 3 != (i // 3) % 3:
+            continue            # quick: one character width per offset, rotating
+        cases.append({"op": "load_cache", "content": list(b), "fam": "raw-utf8"})
     cases.append({"op": "load_cache", "content": None, "fam": "absent"})
     for b in [[], [0], [255, 254], [123, 125], list(b'{"peers":{}}'), [0xef, 0xbb, 0xbf, 123, 125]]:
         cases.append({"op": "load_cache", "content": b, "fam": "raw"})
@@ -796,8 +810,8 @@ def oracle(c, o):
                 for a in p["addrs"]:
                     if a["f"] > a["s"] or a["ls_off"] > 3 or a["ls_off"] < -c.get("expiry_secs", 86400) - 3:
                         bad("cache-cleanup", "loaded address s=%d f=%d seen %+ds is unreliable, expired or in the future" % (a["s"], a["f"], a["ls_off"]))
-            if c.get("fam") in ("absent", "raw") and c.get("content") in (None, [], [0], [255, 254]):
-                bad("cache-accepts", "a missing / non-JSON file loaded")
+            if (c.get("fam") in ("absent", "raw") and c.get("content") in (None, [], [0], [255, 254])) or c.get("fam") == "raw-utf8":
+                bad("cache-accepts", "a missing / non-cache file loaded")
         elif c.get("fam") == "structured":
             bad("cache-rejects", "a well-formed cache file was rejected: " + o.get("msg", ""))
     elif op == "registry_load":
@@ -962,6 +976,8 @@ def model_term(c, o):
                 variant(), cfg, cN(now_secs * 10 ** 9 + 10 ** 9), ccache(c["data"], now_secs, "off", "nanos"), cN(k), impl)
         if c.get("fam") == "absent":
             return "agree_load Fixed %s 0 false None %s []" % (cfg, cN(k))
+        if c.get("fam") == "raw-utf8":          # valid UTF-8 that serde_json rejects: the decode oracle says None
+            return "agree_load Fixed %s 0 true None %s []" % (cfg, cN(k))
         return None     # malformed stream: whether serde accepts it is the oracle's business
     if op == "registry_load":
         if "panic" in o:
@@ -1036,6 +1052,8 @@ def run(ctx):
         outs = ctx.run_harness(binary, [{"op": "scratch_roundtrip", "seed": i} for i in range(6)]) or []
         valid_pks = [o["pk"] for o in outs if o and "pk" in o]
     cases = ctx.corpus() + ([] if ctx.replay else gen(ctx, valid_pks))
+    hist = [c for c in cases if c["op"] == "history"]
+    cases = [c for c in cases if c["op"] != "history"]
     dbg = [c for c in cases if c.get("profile") != "release"]
     rel = [c for c in cases if c.get("profile") == "release"]
     if ctx.tier == "thorough" and not ctx.replay:
@@ -1043,6 +1061,30 @@ def run(ctx):
         rel += [dict(c, profile="release", kind="release/" + c["op"]) for c in dbg if c["op"] in RELEASE_OPS]
     pipeline_retry(ctx, "props/C17.v", dbg, binary, oracle, model_term, IMPORTS, nontrivial=nontrivial, show=show, shard_size=120,
                    relation="each repository parser == its transcription in model/Parsers.v / BootCache.v (outcome Ok/Err/Panic, value, error kind)")
+    # the merge path of the cache FILE (sync_and_flush_to_disk re-reads the file and merges entries of the same address):
+    # C18's store-history harness, generator, oracle and lock-step model terms, run here for the cache-file clause of C17
+    if not ctx.replay:
+        hist += [_C18gen_merge(ctx) for _ in range(40 if ctx.tier == "quick" else 400)]
+    hist_rel = [c for c in hist if c.get("profile") == "release"]
+    hist = [c for c in hist if c.get("profile") != "release"]
+    if ctx.tier == "thorough" and not ctx.replay:
+        hist_rel += [dict(c, profile="release") for c in hist]
+    if hist or hist_rel:
+        from props import C18 as _C18
+        b18 = ctx.cargo_build("c18")
+        _C18.resolve_addrs(ctx, b18, hist + hist_rel)
+        if hist:
+            pipeline_retry(ctx, "props/C17.v", hist, b18, _C18.oracle, _C18.model_term, IMPORTS, nontrivial=_C18.nontrivial,
+                           show=_C18.show, shard_size=12,
+                           relation="cache-file merge path: every step of write file / add / status / flush / load on the real store == "
+                                    "model/BootCache.v (sstep_ok; arec_sync with the saturating sums)")
+        if hist_rel:
+            r18 = cargo_build_release(ctx, "c18")
+            pipeline_retry(ctx, "props/C17.v", hist_rel, r18,
+                           lambda c, o: [(cls, "[release profile, overflow checks off] " + d) for cls, d in _C18.oracle(c, o)],
+                           _C18.model_term, IMPORTS, nontrivial=lambda c, o: ("release",) + tuple(_C18.nontrivial(c, o)),
+                           show=_C18.show, shard_size=12,
+                           relation="release profile: cache-file merge path == model/BootCache.v (saturating sums; a wrapped counter is a disagreement)")
     if rel:
         global RELEASE
         rbin = cargo_build_release(ctx, "c17")
@@ -1055,6 +1097,11 @@ def run(ctx):
                                     "the wrapping instance `Unfixed Release`)")
         finally:
             RELEASE = False
+
+
+def _C18gen_merge(ctx):
+    from props import C18 as _C18
+    return _C18.gen_merge_history(ctx.rng)
 
 
 def oracle_release(c, o):
